@@ -140,6 +140,27 @@ pub fn check_forms(ll_opt: Option<&LongLived>, s: &str, st: &mut Stats) {
                 }
             }
         }
+        // the five rule functions: borrowed, owned (exact and spare capacity) and Cow arguments
+        for rf in crate::subject::RuleFn::ALL {
+            let base = crate::subject::rule(p, rf, s);
+            let variants = [
+                ("String", crate::subject::rule_owned(p, rf, s)),
+                ("String with spare capacity", crate::subject::rule_owned_roomy(p, rf, s)),
+            ];
+            st.evaluations += 3;
+            st.traces += 1;
+            for (name, r) in variants {
+                if r != base {
+                    let nm = name.to_string();
+                    st.violation(
+                        "api_form",
+                        || Case::new("forms").s(s).x(json!([p.name(), rf.name(), nm])),
+                        format!("every argument form gives {} (&str)", show_out(&base)),
+                        format!("{}: {}", name, show_out(&r)),
+                    );
+                }
+            }
+        }
         for b in ["abc", s] {
             let v = cmp_forms(ll, p, s, b);
             st.evaluations += v.len() as u64;
@@ -609,7 +630,7 @@ pub fn run(_env: &Env, run: &Run) -> (Stats, Coverage) {
     st.sample(json!({"forms": "UsernameCaseMapped::enforce(\"Abc\") via static/new()/default()/long-lived x &str/String/&String/Cow::Borrowed/Cow::Owned", "expected": "all Ok(\"abc\")"}));
     st.sample(json!({"history": ["Nickname.enforce(U+00A8 a)", "UsernameCaseMapped.compare(Abc, ABC)", "Nickname.enforce(U+00A8 a)"], "expected": "each result equals the result of the same call made first in a fresh process"}));
     let cov = Coverage {
-        rule: format!("(a) every string of length <= {} over 16 symbols x 4 profiles x {{prepare, enforce}} x 14 (entry point, argument form) pairs (incl. owned Strings with spare capacity) and compare x 8 forms: all equal; (b) every call history of length <= {} over an alphabet of {} calls (4 profiles x 3 ops x 10 inputs hitting every fast and slow path) executed on the process-wide statics and on one long-lived instance per profile, every result compared with the result of that call as the FIRST library call of a fresh process ({} child processes); (c) every interleaving of 2-3 threads over the lazy-singleton points, see 'schedules'; (d) inventory of shared-state constructs in the three crates; (e) SAMPLING, supplementary: free-running threads released from a barrier in fresh child processes; (f) race-detector pass for state the explorer has no scheduling point for: every one of ~1000 library calls (4 profiles x static/instance/rule-level entry points, both classes, all 8 context rules x 46 labels) as the first use of the library by 3 threads of a fresh process, and every unordered pair of those calls on 2 free-running threads, under ThreadSanitizer with std rebuilt (see 'race_detector_pass'); non-trivial = histories mixing different calls", n, depth, alpha.len(), alpha.len()),
+        rule: format!("(a) every string of length <= {} over 16 symbols x 4 profiles x ({{prepare, enforce}} x 14 (entry point, argument form) pairs (incl. owned Strings with spare capacity), the five rule functions x 3 argument forms) and compare x 8 forms: all equal; (b) every call history of length <= {} over an alphabet of {} calls (4 profiles x 3 ops x 10 inputs hitting every fast and slow path) executed on the process-wide statics and on one long-lived instance per profile, every result compared with the result of that call as the FIRST library call of a fresh process ({} child processes); (c) every interleaving of 2-3 threads over the lazy-singleton points, see 'schedules'; (d) inventory of shared-state constructs in the three crates; (e) SAMPLING, supplementary: free-running threads released from a barrier in fresh child processes; (f) race-detector pass for state the explorer has no scheduling point for: every one of ~1000 library calls (4 profiles x static/instance/rule-level entry points, both classes, all 8 context rules x 46 labels) as the first use of the library by 3 threads of a fresh process, and every unordered pair of those calls on 2 free-running threads, under ThreadSanitizer with std rebuilt (see 'race_detector_pass'); non-trivial = histories mixing different calls", n, depth, alpha.len(), alpha.len()),
         alphabet: json!({"symbols": sigma.iter().map(|c| format!("U+{:04X}", *c as u32)).collect::<Vec<_>>(), "history_inputs": INPUTS.iter().map(|s| show(s)).collect::<Vec<_>>()}),
         bound_completed: format!("forms: {} strings; histories: depth {}", tree_size(sigma.len(), n), depth),
         exhaustive: false,
